@@ -1235,6 +1235,16 @@ static void case_ecdsa_sweep(unit_t *u, int ci)
             const char *pos = ci == 0 ? "empty" : ci < 3 ? "in-seq-header" : ci < sl / 2 ? "in-r" : ci < sl - 1 ? "in-s" : "last-byte-missing";
             judge_ecdsa(E, NULL, NULL, dg, dl, sig, ci, 2, "truncated", pos, "accepts-truncated", ci & 1);
         }
+    } else if (ci >= 150 + 2 * size) {
+        /* truncated, with the outer SEQUENCE length rewritten to agree with the shortened buffer: only the inner INTEGER
+           that claims more content than remains gives the truncation away (its reader must not look behind the buffer) */
+        int j = ci - (150 + 2 * size), sl = enc_sig(sig, r, s, 0, 0, 0), hdr = (sig[1] & 0x80) ? 3 : 2;
+        if (j >= hdr && j < sl) {
+            int rend = hdr + 2 + sig[hdr + 1];
+            const char *pos = j < rend ? "in-r" : j == rend ? "s-missing" : j < rend + 2 ? "in-s-header" : j < sl - 1 ? "in-s" : "last-byte-missing";
+            sig[hdr - 1] = (unsigned char) (j - hdr);
+            judge_ecdsa(E, NULL, NULL, dg, dl, sig, j, 2, "truncated-outer-length-adjusted", pos, "accepts-truncated", ci & 1);
+        }
     } else {
         int j = ci - 150;
         if (j < 2 * size) {
@@ -1901,7 +1911,7 @@ static void build_units(void)
         int er = T ? 40 : 2, ir = T ? 200 : 2, sr = T ? 12 : 1, dr = T ? 6 : 1;
         for (int round = 0; round < er; round++) {
             for (int h = 0; h < 5; h++) { unit_t *u = add_unit("ecdsa-verify", case_ecdsa, NECV, "ecdsa/%s/h%d/r%d", CURVES[c].name, HLENS[h], round); u->a = c; u->b = h; u->round = round; }
-            unit_t *u = add_unit("ecdsa-verify", case_ecdsa_sweep, 150 + 2 * sz, "ecdsas/%s/r%d", CURVES[c].name, round); u->a = c; u->round = round;
+            unit_t *u = add_unit("ecdsa-verify", case_ecdsa_sweep, 150 + 2 * sz + 150, "ecdsas/%s/r%d", CURVES[c].name, round); u->a = c; u->round = round;
             u = add_unit("ecdsa-verify", case_ecdsa_smalls, NSMALLS, "ecdsak/%s/r%d", CURVES[c].name, round); u->a = c; u->round = round;
         }
         { unit_t *u = add_unit("ecdsa-verify", case_ecdsa, NECV, "ecdsa/%s/h32/tk", CURVES[c].name); u->a = c; u->b = 2; u->c = 1; u->round = 9999;
